@@ -169,7 +169,10 @@ def run_case(stream, seed, ctx, params):
     if by_card:
         keys = [k for k in keys if k != 'imp']
     new = L.add_like_cells(d, rng, keys=keys)
-    use_card = by_card and all('imp_text' not in c.hints for c in d.cells)
+    # (a LIKE card that itself carries an IMP keyword — the generator's fall-back when no other override applies — hands
+    # that keyword on to the cells copied from it: such decks keep their importances on the cell cards)
+    use_card = by_card and all('imp_text' not in c.hints for c in d.cells) and \
+        all('imp:' not in c.hints.get('raw', '') for c in new)
     if use_card:
         # with an IMP data card the importance of a LIKE cell is the entry at ITS position, not the base cell's
         for c in new:
